@@ -1,6 +1,7 @@
 import CoapVerif.Lemmas.TlsGate
 import CoapVerif.Lemmas.TlsLedger
 import CoapVerif.Lemmas.TlsOrder
+import CoapVerif.Lemmas.TlsNack
 import CoapVerif.Lemmas.PskSelect
 import CoapVerif.Spec.TlsCreds
 /-
@@ -1493,5 +1494,249 @@ theorem icmp_report_names_nothing_queued (c : Ctx) (hi : c.s.inflight = []) (hl 
 /-- … on `okPre`'s session (NON, CON, CON queued, handshake pending), twice: two anonymous notifications, queue unchanged -/
 example : ((hsClient.run okPre).1.run [(.appDisconnect .icmp, []), (.appDisconnect .icmp, [])]) =
     ((hsClient.run okPre).1, [.nack .icmp none none, .nack .icmp none none]) := by decide
+
+/-! ## round R19c — the NACK ledger AFTER the establishment (Lemmas/TlsNack.lean): the send queue is in the accounting
+
+`Nak` is preserved by every function of M on a DTLS session outside block mode, whatever the TLS library answers, no gate
+needed: every serial is held at most once by the library (delay queue, send queue, a detached node), what is held has not been
+reported, `nk j ≤ 2`, and `nk j = 2` only by the pattern `Dbl` (D19a).  Hypotheses of this section: `Ledger0 s` (true of every
+new session), DTLS, no block mode (`blockMode = false`, `lgCrcv = []` — with lg_crcv entries coap_session_disconnected_lkd
+reports the first entry's request when nothing else was reported, which may name a message given up long before). -/
+
+theorem run_nak0 {s : Sess} (hl : Ledger0 s) (hp : s.proto = .dtls) (hb : s.blockMode = false) (hg : s.lgCrcv = [])
+    (evs : List (Ev × List Orc)) (k : Nat) : Nak ([] ++ (s.run evs).2) [] false k { s := (s.run evs).1 } :=
+  run_nak s evs (nak_start s hl.infl hl.srt hl.lt hg hb hp k)
+
+/-- THE NACK LEDGER OF ANY HISTORY (handshake, establishment, ACKs, RSTs, retransmissions, give-ups, refused writes, disconnects,
+release; any answers of the TLS library): at the end
+  * a message the library still holds — in the delay queue or in the send queue — has NOT been reported: no NACK names it;
+  * no message is named by more than TWO NACKs;
+  * a message named by two NACKs is named by the pattern `Dbl`: same reason (not ICMP), nothing but NACKs in between — one call
+    of coap_session_disconnected_lkd (`double_report_only_first_inflight` says which message). -/
+theorem nack_ledger_any_history {s : Sess} (hl : Ledger0 s) (hp : s.proto = .dtls) (hb : s.blockMode = false) (hg : s.lgCrcv = [])
+    (evs : List (Ev × List Orc)) :
+    (∀ q ∈ (s.run evs).1.delayq ++ (s.run evs).1.inflight, nk q.sn (s.run evs).2 = 0) ∧
+    (∀ j, nk j (s.run evs).2 ≤ 2) ∧ (∀ j, nk j (s.run evs).2 = 2 → Dbl j (s.run evs).2) := by
+  have h := run_nak0 hl hp hb hg evs 0
+  refine ⟨fun q hq => ?_, fun j => ?_, fun j hj => ?_⟩
+  · simpa using h.z q.sn (hc_pos_of_mem _ q hq)
+  · simpa using h.le2 j
+  · simpa using h.dbl j (by simpa using hj)
+
+/-- (1) A message queued during the handshake is NOT NACKed while the library holds it: take any history `pre` (the handshake
+phase), a message `q` in the delay queue at its end, ANY continuation `rest`; if at the end a node with `q`'s serial is still in
+the delay queue or in the send queue (the session has not failed, was not released, the message was not given up after
+MAX_RETRANSMIT, not reset, not acknowledged) then no NACK in the WHOLE trace names it. -/
+theorem queued_not_nacked_while_held {s : Sess} (hl : Ledger0 s) (hp : s.proto = .dtls) (hb : s.blockMode = false)
+    (hg : s.lgCrcv = []) (pre rest : List (Ev × List Orc)) (q : QMsg) (_hq : q ∈ (s.run pre).1.delayq)
+    (q2 : QMsg) (hq2 : q2 ∈ (s.run (pre ++ rest)).1.delayq ++ (s.run (pre ++ rest)).1.inflight) (hsn : q2.sn = q.sn) :
+    nk q.sn (s.run (pre ++ rest)).2 = 0 := by
+  rw [← hsn]
+  exact (nack_ledger_any_history hl hp hb hg (pre ++ rest)).1 q2 hq2
+
+theorem step_appDisconnect (s : Sess) (r : Nack) (o : List Orc) (hfr : s.freed = false) :
+    s.step (.appDisconnect r) o =
+      ((({ s := s, orc := o } : Ctx).disconnected r).s, (({ s := s, orc := o } : Ctx).disconnected r).out) := by
+  simp [Sess.step, Sess.stepCtx, hfr]
+
+/-- (3) D19a IS THE ONLY WAY A MESSAGE IS REPORTED TWICE.  In any history: at most two NACKs name a message, and two only in the
+pattern `Dbl` — both inside one call of coap_session_disconnected_lkd; and for the event that produces it —
+coap_session_disconnected(reason ≠ ICMP) after ANY history — the event's NACKs name a serial twice EXACTLY WHEN it is the
+Confirmable at the head of the send queue (reported by the first loop of coap_session_disconnected_lkd and again by
+coap_cancel_session_messages); every other message on either queue is named at most once. -/
+theorem double_report_only_first_inflight {s : Sess} (hl : Ledger0 s) (hp : s.proto = .dtls) (hb : s.blockMode = false)
+    (hg : s.lgCrcv = []) (evs : List (Ev × List Orc)) :
+    (∀ j, nk j (s.run evs).2 ≤ 2 ∧ (nk j (s.run evs).2 = 2 → Dbl j (s.run evs).2)) ∧
+    (∀ (r : Nack) (o : List Orc) (j : Nat), r ≠ .icmp → (s.run evs).1.freed = false →
+      (nk j ((s.run evs).1.step (.appDisconnect r) o).2 = 2 ↔
+        ∃ q0 tl, (s.run evs).1.inflight = q0 :: tl ∧ q0.sn = j ∧ q0.con = true)) := by
+  have hA := nack_ledger_any_history hl hp hb hg evs
+  refine ⟨fun j => ⟨hA.2.1 j, hA.2.2 j⟩, ?_⟩
+  intro r o j hr hfr
+  have h := run_nak0 hl hp hb hg evs 0
+  have hc' : Nak ([] ++ (s.run evs).2) [] false 0 { s := (s.run evs).1, orc := o } :=
+    ⟨h.nd, h.lt, h.z, h.fut, h.le2, h.dbl, h.lg, h.bm, h.proto, h.trk⟩
+  rw [step_appDisconnect _ r o hfr]
+  simp only [disconnected_nk r hr j, nk_nil, Nat.zero_add]
+  exact (disc_counts r hr hc' j).2
+
+/-- (2) AFTER A LATER FAILURE each still-unacknowledged Confirmable that was queued during the handshake gets AT LEAST ONE NACK and
+— unless it is the first in-flight message of the session (D19a) — EXACTLY ONE.  `pre`: the handshake phase, `q` queued at its
+end; `rest`: ANY continuation (establishment, flushes, retransmissions, …; any TLS-library answers) at whose end a Confirmable
+node with `q`'s serial is still on the delay queue or the send queue; then coap_session_disconnected(reason ≠ ICMP).  Over the
+WHOLE trace: `q` is named by at least one NACK, by at most two, by two exactly when it was the head of the send queue; both
+queues are empty afterwards. -/
+theorem queued_con_nacked_on_later_failure {s : Sess} (hl : Ledger0 s) (hp : s.proto = .dtls) (hb : s.blockMode = false)
+    (hg : s.lgCrcv = []) (pre rest : List (Ev × List Orc)) (q : QMsg) (_hq : q ∈ (s.run pre).1.delayq)
+    (q2 : QMsg) (hq2 : q2 ∈ (s.run (pre ++ rest)).1.delayq ++ (s.run (pre ++ rest)).1.inflight) (hsn : q2.sn = q.sn)
+    (hcon : q2.con = true) (hfr : (s.run (pre ++ rest)).1.freed = false) (r : Nack) (hr : r ≠ .icmp) (o : List Orc) :
+    1 ≤ nk q.sn (s.run (pre ++ rest ++ [(.appDisconnect r, o)])).2 ∧
+    nk q.sn (s.run (pre ++ rest ++ [(.appDisconnect r, o)])).2 ≤ 2 ∧
+    (nk q.sn (s.run (pre ++ rest ++ [(.appDisconnect r, o)])).2 = 2 ↔
+      ∃ q0 tl, (s.run (pre ++ rest)).1.inflight = q0 :: tl ∧ q0.sn = q.sn ∧ q0.con = true) ∧
+    (s.run (pre ++ rest ++ [(.appDisconnect r, o)])).1.delayq = [] ∧
+    (s.run (pre ++ rest ++ [(.appDisconnect r, o)])).1.inflight = [] := by
+  have h := run_nak0 hl hp hb hg (pre ++ rest) 0
+  have hc' : Nak ([] ++ (s.run (pre ++ rest)).2) [] false 0 { s := (s.run (pre ++ rest)).1, orc := o } :=
+    ⟨h.nd, h.lt, h.z, h.fut, h.le2, h.dbl, h.lg, h.bm, h.proto, h.trk⟩
+  have hd := disc_counts r hr hc' q.sn
+  have hz := (nack_ledger_any_history hl hp hb hg (pre ++ rest)).1 q2 hq2
+  rw [hsn] at hz
+  have hle := (nack_ledger_any_history hl hp hb hg (pre ++ rest ++ [(.appDisconnect r, o)])).2.1 q.sn
+  have hpos := hd.1 ⟨q2, hq2, hsn, hcon⟩
+  have hqs := disconnected_queues (c := { s := (s.run (pre ++ rest)).1, orc := o }) r hr
+  rw [run_append (s := s) (a := pre ++ rest)] at hle ⊢
+  simp only [Sess.run, step_appDisconnect _ r o hfr, List.append_nil, nk_append, disconnected_nk r hr q.sn, nk_nil,
+    Nat.zero_add, hz] at hle ⊢
+  have hd2 := hd.2
+  simp only [nk_append] at hpos hd2
+  exact ⟨hpos, hle, hd2, hqs.1, hqs.2⟩
+
+/-- DELIVERED ONCE, OR A NACK NAMING IT — `queued_delivered_in_order_once_on_success` with the coarse "given up" disjunct (some
+non-ICMP NACK somewhere in the trace, or the session freed) replaced, for a Confirmable, by "a NACK naming `q`" (coap_session_mfree
+reports the Confirmables of the delay queue too, so "freed" is covered by it).  Same `pre` / `rest`; every Confirmable `q` that was
+in the delay queue at the end of `pre` is at the end EITHER still queued, never transmitted and not reported, OR no longer waiting
+and then transmitted for the first time EXACTLY once or named by a NACK. -/
+theorem queued_con_delivered_once_or_nacked {s : Sess} (h : Unauth s) (hl : Ledger0 s) (hp : s.proto = .dtls)
+    (hb : s.blockMode = false) (hg : s.lgCrcv = []) (pre rest : List (Ev × List Orc)) (hnm : Out.hsOkMark ∉ (s.run pre).2) :
+    ∀ q ∈ (s.run pre).1.delayq, q.con = true → q.cnt = 0 →
+      (q.sn ∈ fresh0 (s.run (pre ++ rest)).1.delayq ∧ (firsts (s.run pre).1.next (s.run (pre ++ rest)).2).count q.sn = 0 ∧
+        nk q.sn (s.run (pre ++ rest)).2 = 0) ∨
+      (q.sn ∉ fresh0 (s.run (pre ++ rest)).1.delayq ∧
+        ((firsts (s.run pre).1.next (s.run (pre ++ rest)).2).count q.sn = 1 ∨ 1 ≤ nk q.sn (s.run (pre ++ rest)).2)) := by
+  intro q hq hcon hcnt
+  obtain ⟨hsrt, hcase⟩ := queued_delivered_in_order_once_on_success h hl hp pre rest hnm
+  have hN := run_nak0 hl hp hb hg pre 0
+  have hlt : q.sn < (s.run pre).1.next := hN.lt q.sn (hc_pos_of_mem _ q (List.mem_append_left _ hq))
+  have hE := run_nak (s.run pre).1 rest (nak_track hN ⟨q, hq, rfl, hcon, hcnt⟩)
+  have hrun : s.run (pre ++ rest) = (((s.run pre).1.run rest).1, (s.run pre).2 ++ ((s.run pre).1.run rest).2) := run_append s pre rest
+  have htr : ([] ++ (s.run pre).2) ++ ((s.run pre).1.run rest).2 = (s.run (pre ++ rest)).2 := by rw [hrun]; simp
+  have hst : ((s.run pre).1.run rest).1 = (s.run (pre ++ rest)).1 := by rw [hrun]
+  rw [htr] at hE
+  have hcnt1 := count_le_one_of_sorted _ (List.pairwise_append.mp hsrt).1 q.sn
+  by_cases hin : q.sn ∈ fresh0 (s.run (pre ++ rest)).1.delayq
+  · left
+    refine ⟨hin, List.count_eq_zero.mpr fun hm => sorted_append_disjoint _ _ hsrt q.sn hm hin, ?_⟩
+    simp only [fresh0, List.mem_map, List.mem_filter] at hin
+    obtain ⟨q', ⟨hq', _⟩, hsn⟩ := hin
+    have := (nack_ledger_any_history hl hp hb hg (pre ++ rest)).1 q' (List.mem_append_left _ hq')
+    rw [hsn] at this; exact this
+  · right
+    refine ⟨hin, ?_⟩
+    have ht := hE.trk rfl
+    rw [show ({ s := ((s.run pre).1.run rest).1 } : Ctx).out = [] from rfl, List.append_nil] at ht
+    rcases ht with ⟨q', hq', h1, _, h3⟩ | b | b
+    · exfalso
+      apply hin
+      rw [hst] at hq'
+      simp only [fresh0, List.mem_map, List.mem_filter]
+      exact ⟨q', ⟨hq', by simp [h3]⟩, h1⟩
+    · left
+      have hm : q.sn ∈ firsts (s.run pre).1.next (s.run (pre ++ rest)).2 := by
+        unfold firsts
+        exact List.mem_filter.mpr ⟨b, by simpa using hlt⟩
+      have := List.count_pos_iff.mpr hm
+      omega
+    · right; exact b
+
+/-- `icmp_report_names_nothing_queued` AT TRACE LEVEL (outside block mode): after ANY history of the handshake phase (any events,
+any answers of the TLS library, the oracle has not reported success) coap_session_disconnected(COAP_NACK_ICMP_ISSUE) raises
+exactly ONE notification, which names NO message, and leaves the session exactly as it was — however many requests wait in the
+delay queue, however often it happens. -/
+theorem icmp_report_names_nothing_queued_trace {s : Sess} (h : Unauth s) (hl : Ledger0 s) (hp : s.proto = .dtls)
+    (hb : s.blockMode = false) (hg : s.lgCrcv = []) (pre : List (Ev × List Orc)) (hnm : Out.hsOkMark ∉ (s.run pre).2)
+    (hfr : (s.run pre).1.freed = false) (o : List Orc) :
+    (s.run pre).1.step (.appDisconnect .icmp) o = ((s.run pre).1, [.nack .icmp none none]) := by
+  have h1 := run_ledOk pre (ledOk_start h hl)
+  have hinf : (s.run pre).1.inflight = [] := by
+    rcases h1.led with hs | hc
+    · exact absurd hs (not_seen_of_no_mark _ hnm)
+    · exact (hc []).infl
+  have hlg := (run_nak0 hl hp hb hg pre 0).lg
+  have := icmp_report_names_nothing_queued { s := (s.run pre).1, orc := o } hinf hlg
+  simp only [Sess.step, Sess.stepCtx, hfr, Bool.false_eq_true, if_false]
+  rw [this.1, this.2]
+  rfl
+
+/-- … and after ANY history at all (also beyond the establishment): the notification leaves the session as it was, and a message it
+names is the first node of the send queue — never a message of the delay queue. -/
+theorem icmp_report_names_no_queued_message {s : Sess} (hl : Ledger0 s) (hp : s.proto = .dtls) (hb : s.blockMode = false)
+    (hg : s.lgCrcv = []) (evs : List (Ev × List Orc)) (o : List Orc) :
+    ((s.run evs).1.step (.appDisconnect .icmp) o).1 = (s.run evs).1 ∧
+    ∀ r tok j, Out.nack r tok (some j) ∈ ((s.run evs).1.step (.appDisconnect .icmp) o).2 →
+      (∃ q0 tl, (s.run evs).1.inflight = q0 :: tl ∧ q0.sn = j) ∧ ∀ q ∈ (s.run evs).1.delayq, q.sn ≠ j := by
+  have hN := run_nak0 hl hp hb hg evs 0
+  have hlg : (s.run evs).1.lgCrcv = [] := hN.lg
+  by_cases hfr : (s.run evs).1.freed = true
+  · simp [Sess.step, Sess.stepCtx, hfr]
+  · have hfr' : (s.run evs).1.freed = false := by simpa using hfr
+    refine ⟨by simp [Sess.step, Sess.stepCtx, hfr', Ctx.disconnected], ?_⟩
+    intro r tok j hm
+    simp only [Sess.step, Sess.stepCtx, hfr', Bool.false_eq_true, if_false, Ctx.disconnected, if_true, List.nil_append,
+      Ctx.discOuts, Ctx.discFirst, Ctx.discDq, Ctx.discLg, hlg] at hm
+    cases hi : (s.run evs).1.inflight with
+    | nil => simp [hi] at hm
+    | cons q0 tl =>
+      simp [hi, nackOf] at hm
+      obtain ⟨_, _, rfl⟩ := hm
+      refine ⟨⟨q0, tl, rfl, rfl⟩, fun q hq hqs => ?_⟩
+      have hnd := hN.nd q0.sn
+      have h1 := countP_sn_pos _ q hq
+      rw [countP_sn_count, hqs] at h1
+      simp only [hc, List.count_nil, Nat.zero_add, hi, sns, List.map_cons, List.count_cons_self] at hnd
+      simp only [sns] at h1
+      omega
+
+/-! ### instances (every hypothesis of the R19c theorems on a non-trivial history) -/
+
+/-- the establishing datagram: the handshake completes, NON 0 and CON 1 go out, CON 2 waits (NSTART) -/
+def estDgram : Ev × List Orc := (.dgram, .hs .ok :: List.replicate 3 (Orc.snd .ok))
+
+example : Ledger0 hsClient ∧ hsClient.proto = .dtls ∧ hsClient.blockMode = false ∧ hsClient.lgCrcv = [] :=
+  ⟨⟨rfl, by decide, by decide, by decide, by decide⟩, rfl, rfl, rfl⟩
+
+/-- after `okPre ++ [estDgram]`: CON 1 is the head of the send queue, CON 2 is in the delay queue, nothing reported so far, the
+session is live — the hypotheses of `queued_not_nacked_while_held` / `queued_con_nacked_on_later_failure` for serials 1 and 2 -/
+example : ((hsClient.run (okPre ++ [estDgram])).1.inflight.map fun q => (q.sn, q.con)) = [(1, true)] ∧
+    ((hsClient.run (okPre ++ [estDgram])).1.delayq.map fun q => (q.sn, q.con)) = [(2, true)] ∧
+    (hsClient.run (okPre ++ [estDgram])).1.freed = false ∧
+    (List.range 4).map (fun j => nk j (hsClient.run (okPre ++ [estDgram])).2) = [0, 0, 0, 0] := by decide
+
+/-- D19a, the `decide`d WITNESS: the established session is torn down (coap_session_disconnected, TLS_FAILED).  The first in-flight
+Confirmable (serial 1) is named by TWO NACKs — first loop of coap_session_disconnected_lkd, then coap_cancel_session_messages —,
+the queued Confirmable (serial 2) by exactly ONE, the NON (serial 0, written and deleted) by none. -/
+theorem d19a_first_inflight_reported_twice :
+    (List.range 4).map (fun j => nk j (hsClient.run (okPre ++ [estDgram] ++ [(.appDisconnect .tls, [])])).2) = [0, 2, 1, 0] ∧
+    (hsClient.run (okPre ++ [estDgram] ++ [(.appDisconnect .tls, [])])).2.filter Out.isNack =
+      [.nack .tls (some "02") (some 1), .nack .tls (some "03") (some 2), .nack .tls (some "02") (some 1)] := by decide
+
+/-- give-up after MAX_RETRANSMIT on the established session: serial 1 is reported ONCE (TOO_MANY_RETRIES), is off the send queue
+while coap_session_connected flushes serial 2, and a later teardown does not name it again; serial 2 — now the first in-flight
+message — is the one reported twice -/
+example : (List.range 4).map (fun j => nk j (hsClient.run (okPre ++ [estDgram] ++
+      [(.retransmit 8, [.snd .ok]), (.retransmit 8, [.snd .ok]), (.retransmit 8, [.snd .ok]), (.retransmit 8, [.snd .ok]),
+       (.retransmit 8, [.snd .ok])])).2) = [0, 1, 0, 0] ∧
+    (List.range 4).map (fun j => nk j (hsClient.run (okPre ++ [estDgram] ++
+      [(.retransmit 8, [.snd .ok]), (.retransmit 8, [.snd .ok]), (.retransmit 8, [.snd .ok]), (.retransmit 8, [.snd .ok]),
+       (.retransmit 8, [.snd .ok]), (.appDisconnect .tls, [])])).2) = [0, 1, 2, 0] := by decide
+
+/-- the write of the flush is refused AND the TLS library reports a fatal alert inside coap_session_connected: the session is torn
+down while serial 0 is a detached node (neither queue holds it); the queued Confirmables 1 and 2 are reported once each -/
+example : (List.range 4).map (fun j => nk j (hsClient.run (okPre ++ [(.dgram, [.hs .ok, .snd .fatalrx])])).2) = [0, 1, 1, 0] ∧
+    (hsClient.run (okPre ++ [(.dgram, [.hs .ok, .snd .fatalrx])])).1.state = .none := by decide
+
+/-- ICMP after the establishment names the first in-flight message (advisory, not counted), never the queued one; the session is
+untouched -/
+example : ((hsClient.run (okPre ++ [estDgram])).1.step (.appDisconnect .icmp) []) =
+    ((hsClient.run (okPre ++ [estDgram])).1, [.nack .icmp (some "02") (some 1)]) := by decide
+
+/-- why "outside block mode": with an lg_crcv entry (CON + Observe, block mode) a Confirmable given up after MAX_RETRANSMIT
+(reported: TOO_MANY_RETRIES) is reported AGAIN by a later coap_session_disconnected_lkd that finds nothing else to report — two
+NACKs that are NOT the D19a pattern.  Model level (the harness has no give-up scenario in block mode); an in-flight matter (D19a:
+C06/C07), recorded in design/C19.md. -/
+example : nk 0 (({ hsClient with blockMode := true } : Sess).run
+    [(.appSendL true true 1 7 "01", []), (.dgram, [.hs .ok, .snd .ok]),
+     (.retransmit 7, [.snd .ok]), (.retransmit 7, [.snd .ok]), (.retransmit 7, [.snd .ok]), (.retransmit 7, [.snd .ok]),
+     (.retransmit 7, []), (.appDisconnect .tls, [])]).2 = 2 := by decide
 
 end Coap.C19
